@@ -618,7 +618,7 @@ func c20Visible(m *c20Model, d int) []string {
 
 func c20(r *hx.Run) {
 	fx.Quiet()
-	r.Rule = "breadth-first search over event sequences {submit next scripted request of DID d, monitor tick, timeout tick, observe (deliver all pending ledger transactions), submit invalid requests (document with id / context, non-applying delta, malformed: must be refused without a trace), advance (switch to the second protocol version)} on a node assembled only from the library's real parts (REST update/resolve handlers -> DocumentHandler with default decorator -> Writer/cutter/MemQueue -> OperationHandler -> CAS -> harness ledger -> Observer -> TxnProcessor/OperationProvider -> store -> processor -> didtransformer), de-duplicated on the reference state; every transition replays the sequence on a fresh node in lock-step with the reference (acceptance rule, queue/batch model, ledger, ref/sidetree resolution, independent projection); configurations vary scripts (C U U / C U R U / C D U / C R D / C R(out of window) U / C D(out of window) D / C U(alias) / C U(json-patch); the two protocol versions each enable a patch action the other lacks), unpublished-operation store and one or two protocol versions. Non-trivial: states in which at least one DID resolves with an operation applied after its create."
+	r.Rule = "breadth-first search over event sequences {submit next scripted request of DID d, monitor tick, timeout tick, observe (deliver all pending ledger transactions), submit invalid requests (document with id / context, non-applying delta, malformed: must be refused without a trace), advance (switch to the second protocol version)} on a node assembled only from the library's real parts (REST update/resolve handlers -> DocumentHandler with default decorator -> Writer/cutter/MemQueue -> OperationHandler -> CAS -> harness ledger -> Observer -> TxnProcessor/OperationProvider -> store -> processor -> didtransformer), de-duplicated on the reference state; every transition replays the sequence on a fresh node in lock-step with the reference (acceptance rule, queue/batch model, ledger, ref/sidetree resolution, independent projection); configurations vary scripts (C U U / C U R U / C D U / C R D / C R(out of window) U / C D(out of window) D / C R U(next commitment = the recover's revealed one) / C U(alias) / C U(json-patch); the two protocol versions each enable a patch action the other lacks), unpublished-operation store and one or two protocol versions. Non-trivial: states in which at least one DID resolves with an operation applied after its create."
 	configs := []c20Config{
 		{"AB|nounpub|1ver", [][]string{{"C", "U01", "U12"}, {"C", "U01", "R01", "V01"}}, false, false, 2},
 		{"CD|unpub|1ver", [][]string{{"C", "D0", "U01"}, {"C", "R01", "D1"}}, true, false, 2},
@@ -626,6 +626,8 @@ func c20(r *hx.Run) {
 		{"BE|unpub|2ver", [][]string{{"C", "U01", "R01", "V01"}, {"C", "Ualias"}}, true, true, 2},
 		// R01~w: recover anchored outside its signed window; D0~w then D0: a deactivate anchored outside its window (no effect) retried with the same key
 		{"DC|nounpub|1ver", [][]string{{"C", "R01~w", "V01"}, {"C", "D0~w", "D0"}}, false, false, 2},
+		// V0>r0: after a recover, an update whose next update commitment is the commitment the recover revealed
+		{"GA|nounpub|1ver", [][]string{{"C", "R01", "V0>r0"}, {"C", "U01"}}, false, false, 2},
 	}
 	depth := 8
 	if r.Tier == "thorough" {
